@@ -203,6 +203,10 @@ var clockColumns = map[string]bool{"created_at": true, "updated_at": true, "up_m
 func setExtra(fv reflect.Value, name string, id int64) {
 	switch fv.Kind() {
 	case reflect.String:
+		if name == "Code" { // unique column
+			fv.SetString(fmt.Sprintf("code%d", id))
+			return
+		}
 		fv.SetString(fmt.Sprintf("%s%d", strings.ToLower(name), id%7))
 	case reflect.Int, reflect.Int32, reflect.Int64:
 		if name == "Def" && id%2 == 0 {
@@ -239,8 +243,9 @@ func setExtra(fv reflect.Value, name string, id int64) {
 			fv.Set(reflect.ValueOf(sql.NullInt64{Int64: id % 17, Valid: id%3 == 0}))
 		default:
 			for i := 0; i < fv.NumField(); i++ {
-				if fv.Field(i).CanSet() {
-					setExtra(fv.Field(i), fv.Type().Field(i).Name, id)
+				sf := fv.Type().Field(i)
+				if fv.Field(i).CanSet() && !isRelField(sf) && !strings.HasSuffix(sf.Name, "ID") {
+					setExtra(fv.Field(i), sf.Name, id)
 				}
 			}
 		}
@@ -980,14 +985,14 @@ func (s *gstate) rng() (int64, int64) {
 func fkFieldsOf(t int) (fields []string, targets []int) {
 	seen := map[string]bool{}
 	for _, r := range Pool[t].Rels {
-		if r.OK && r.Kind == "belongs_to" && !seen[r.FK] {
+		if r.OK && !r.Hidden && r.Kind == "belongs_to" && !seen[r.FK] {
 			seen[r.FK] = true
 			fields, targets = append(fields, r.FK), append(targets, r.To)
 		}
 	}
 	for _, d := range Pool {
 		for _, r := range d.Rels {
-			if r.OK && (r.Kind == "has_many" || r.Kind == "has_one") && r.To == t && !seen[r.FK] {
+			if r.OK && !r.Hidden && (r.Kind == "has_many" || r.Kind == "has_one") && r.To == t && !seen[r.FK] {
 				seen[r.FK] = true
 				fields, targets = append(fields, r.FK), append(targets, d.Idx)
 			}
@@ -999,7 +1004,7 @@ func fkFieldsOf(t int) (fields []string, targets []int) {
 func okRels(t int, kinds ...string) []RelDesc {
 	var out []RelDesc
 	for _, r := range Pool[t].Rels {
-		if !r.OK {
+		if !r.OK || r.Hidden {
 			continue
 		}
 		if len(kinds) == 0 {
@@ -1611,6 +1616,9 @@ func sprinkle(r *lib.Rng, spec *DBSpec) {
 			}
 			if op.Kind == "count" && r.Chance(1, 3) {
 				op.Kind = "row_count"
+			}
+			if op.Kind == "find" && op.Cond == "" && r.Chance(1, 4) {
+				op.Kind = "table_find"
 			}
 		}
 	}
